@@ -17,6 +17,17 @@ CLAIMED = {
         "documented types = types of the defaults; malformed only asserted for values the type cannot read at all",
         "DESIGN.md section 4 C18",
     ),
+    "C05": (
+        "online trace checker on a shadow of aldy's CBC wrapper + offline audit by exhaustive enumeration and independent solvers (SCIP, HiGHS)",
+        "A subclass of aldy's own CBC wrapper (installed by rebinding aldy.lpinterface.CBC) exports the live model around "
+        "every solve and follows the solve/yield/cut trace of solutions(): feasibility, reported objective, active "
+        "binaries, gap, order, duplicates, helper exactness at every yield. Offline, generated models of aldy's shape "
+        "are compared with an exhaustive semantic table (optimum, objective per assignment, superset-completeness), "
+        "helper patterns are enumerated exhaustively, and every real model aldy builds for shipped samples / evidence "
+        "tables is re-solved by SCIP and HiGHS (initial model and final model with all cuts).",
+        "OR-Tools' export and SCIP/HiGHS/GLOP are trusted; tolerances 1e-5 feasibility, 1e-4 objective",
+        "DESIGN.md section 4 C05",
+    ),
 }
 
 NOT_YET = {}
